@@ -10,7 +10,8 @@ What `Datagrams::{send,max_size}` read from the `Connection` are explicit inputs
 Every comparison / arithmetic expression is the generated translation of the Rust text (`Gen.dg*`, T1).
 A datagram is its payload (`Bytes`); `usize` is 64 bit.  Panics (checked `usize` arithmetic in a debug
 build, `VarInt::from_u64(..).unwrap()`) are explicit outcomes; a non-terminating loop is `hang`.
-Not modelled: overflow of `len + recv_buffered` (needs a 2^64-byte window).
+`recv_buffered` counts what the buffered incoming datagrams are CHARGED (`recv_cost`: length, at least 1).
+Not modelled: overflow of `cost + recv_buffered` (needs a 2^64-byte window).
 -/
 namespace QM.Datagrams
 open QM
@@ -92,27 +93,33 @@ def sendBufferSpace (s : State) (sendBufferSize : Nat) : Nat := Gen.dgSendBuffer
 /-- `DatagramState::has_send_buffer_space` -/
 def hasSendBufferSpace (s : State) (len sendBufferSize : Nat) : Bool := Gen.dgHasSpace s.outgoingTotal len sendBufferSize
 
+/-- `DatagramState::recv_cost`: what a buffered incoming datagram is charged against the receive buffer
+    (its length, an empty one a byte: every queue entry costs memory) -/
+def recvCost (d : Bytes) : Nat := Gen.dgRecvCost d.length
+
 /-- `DatagramState::recv`; on the underflow panic the head has already been popped -/
 def recv (s : State) : State × Out :=
   match s.incoming with
   | [] => (s, .recvNone)
   | x :: rest =>
-    if s.recvBuffered < x.length then ({ s with incoming := rest }, .panic)
-    else ({ s with incoming := rest, recvBuffered := s.recvBuffered - x.length }, .recvSome x)
+    if s.recvBuffered < recvCost x then ({ s with incoming := rest }, .panic)
+    else ({ s with incoming := rest, recvBuffered := s.recvBuffered - recvCost x }, .recvSome x)
 
 inductive LoopOut where
   | done | panic | hang
 deriving Repr, DecidableEq
 
-/-- the `while` loop of `received` (result of `recv` ignored).  With fuel `incoming.length + 1` the model
-    runs out of fuel exactly when the Rust loop would spin forever on an empty queue. -/
-def evict (len window : Nat) : Nat → State → State × LoopOut
-  | 0, s => if Gen.dgMustEvict len s.recvBuffered window then (s, .hang) else (s, .done)
+/-- the `while` loop of `received`: `recv()` until the charge fits, leaving (`break`) when the queue is empty.
+    Every iteration pops a datagram or leaves, so fuel `incoming.length + 1` always suffices (`hang` = out of
+    fuel is unreachable: `Lemmas.evict_never_hangs`, for ANY state). -/
+def evict (cost window : Nat) : Nat → State → State × LoopOut
+  | 0, s => if Gen.dgMustEvict cost s.recvBuffered window then (s, .hang) else (s, .done)
   | fuel + 1, s =>
-    if Gen.dgMustEvict len s.recvBuffered window then
+    if Gen.dgMustEvict cost s.recvBuffered window then
       match recv s with
       | (s', .panic) => (s', .panic)
-      | (s', _) => evict len window fuel s'
+      | (s', .recvNone) => (s', .done)
+      | (s', _) => evict cost window fuel s'
     else (s, .done)
 
 /-- `DatagramState::received` -/
@@ -121,11 +128,14 @@ def received (s : State) (d : Bytes) (window : Option Nat) : State × Out :=
   | none => (s, .rcvErr .unexpected)
   | some w =>
     if Gen.dgOversized d.length w then (s, .rcvErr .oversized) else
+    let cost := recvCost d
+    -- charged more than the whole buffer (an empty datagram, window 0): dropped, `Ok(false)`
+    if Gen.dgCostTooBig cost w then (s, .rcvOk false) else
     let wasEmpty := Gen.dgWasEmpty s.recvBuffered
-    match evict d.length w (s.incoming.length + 1) s with
+    match evict cost w (s.incoming.length + 1) s with
     | (s', .panic) => (s', .panic)
     | (s', .hang) => (s', .hang)
-    | (s', .done) => ({ s' with recvBuffered := s'.recvBuffered + d.length, incoming := s'.incoming ++ [d] }, .rcvOk wasEmpty)
+    | (s', .done) => ({ s' with recvBuffered := s'.recvBuffered + cost, incoming := s'.incoming ++ [d] }, .rcvOk wasEmpty)
 
 /-- `DatagramState::make_space_for` on (queue, total); the flag is the `outgoing_total -= ..` underflow panic
     (the popped datagram is gone, the total untouched) -/
